@@ -343,8 +343,18 @@ fn run_suite<S: ShortGroupSignatureScheme + 'static>(em: &mut Emitter, base: &mu
                 }
                 for alt in alts {
                     let mut q = p.clone();
-                    q.disclosed_messages.get_mut(&sid).unwrap().insert(l.clone(), alt);
+                    q.disclosed_messages.get_mut(&sid).unwrap().insert(l.clone(), alt.clone());
                     judge(em, suite, "reported-claim-retyped-same-scalar", &scn, &q, &l);
+                    // the same through the honest prover run on a credential copy whose claim is re-typed (the signature
+                    // still fits: same scalar), so that the transcript is consistent with the report
+                    let li = LABELS.iter().position(|x| *x == l).unwrap();
+                    let mut cred2 = scn.bundles[0].credential.clone();
+                    cred2.claims[li] = alt;
+                    let mut creds2 = scn.credentials.clone();
+                    creds2.insert(sid.clone(), cred2.into());
+                    if let Out::Ok(q2) = call(|| Presentation::create(&creds2, &scn.schema, &scn.nonce)) {
+                        judge(em, suite, "credential-copy-retyped-same-scalar", &scn, &q2, &l);
+                    }
                 }
             }
             let mut q = p.clone();
